@@ -689,6 +689,34 @@ func MonC08(c *MonCtx) {
 	}
 }
 
+// MonC19Effects — the documented effect of an accepted pause-rolling-update / freeze-rollout command holds on every later
+// sync of the active replica set for as long as the annotation the command wrote says true, whatever else was commanded.
+func MonC19Effects(c *MonCtx) {
+	if c.Out.Ev.K != "R_ers" {
+		return
+	}
+	ns, name := split(c.Out.Ev.A)
+	v := BuildSyncView(c.Pre, c.Out.Log, ns, name)
+	if v == nil || v.Role != "active" {
+		return
+	}
+	paused, frozen := AnnotTrue(v.EDS, "rolling-update-paused"), AnnotTrue(v.EDS, "rollout-frozen")
+	if frozen {
+		c.Antecedent("C19/frozen-sync")
+		if len(v.Creates) > 0 {
+			c.Violate("C19", "C19/effect: freeze-rollout blocks the creation of pods, yet a pod was created while rollout-frozen is true", v.Creates[0].Key())
+		}
+	}
+	if paused || frozen {
+		c.Antecedent("C19/paused-sync")
+		for _, d := range v.Deletes {
+			if p := v.PodByKey[d.NS+"/"+d.Name]; p != nil && v.IsUpdateDeletion(p) && PodHash(p) != v.RS.Spec.TemplateGeneration {
+				c.Violate("C19", "C19/effect: a pod was deleted for updating after pause-rolling-update / freeze-rollout was accepted and not undone", p.Name)
+			}
+		}
+	}
+}
+
 // MonC14 — replica-set counters are ordered after a full sync.
 func MonC14(c *MonCtx) {
 	if c.Out.Ev.K != "R_ers" {
